@@ -121,7 +121,7 @@ def run(ctx):
                 t["steps"][-1]["act"] = "Dup"; f.write(json.dumps(t) + "\n"); k += 1
             if k == 3:
                 break
-    if not res["failures"]:
+    if not ctx.violations:
         sres = ctx.harness_json("registry", ["c19replay", st, "1"], timeout=600)
         fc = sres.get("fail_count") or {}
         if k != 3 or sum(fc.values()) != 3:
@@ -166,7 +166,7 @@ def run(ctx):
         ctx.sample({"trace": [json.loads(x) for x in rs[0]][:14]})
 
     # self-test of the trace specification
-    if first_ok is not None:
+    if first_ok is not None and not ctx.violations:
         h = [json.loads(x) for x in first_ok]
         muts = []
         for i, x in enumerate(h):
